@@ -8,6 +8,8 @@ NOTE = ("Trusted: z3 5.1 / cvc5 1.0.3 verdicts; the pyvc executor's encoding of 
         "bs4/lxml/cssutils; floats under the standard error model (binary64, round-to-nearest, no overflow); "
         "the bounded parts are run-time contract evaluation, never counted as proof. See evidence/<id>.json.")
 CLAIMED = {
+ "C06": ("contract-based deductive verification (AST->SMT VCs: float standard model for the timecode arithmetic, loop invariants over a field-array heap for the caption-list corrections) + bounded run-time contracts on generated pop-on programs",
+         "P: timecode + frames -> microseconds (drop / non-drop 1001/1000, offset, floor at 0) within 16 ulp, get_time adds the counted frames, exactly one frame per word, gap under five frames closed / longer kept for any batch length, trailing captions without end last four seconds for any list length; B: programs x drop/non-drop x doubled x inline/separate EDM x gaps x offsets against exact-rational reference timing (one known finding: offset beyond a caption end)", "3 C06"),
  "C10": ("frame / object-invariant obligations discharged by a syntactic effect checker over the real ASTs + bounded run-time history and isolation contracts incl. hash seeds",
          "P-frame: every attribute a reader.read() reads is plain configuration or assigned in that call before its first read (so earlier reads cannot influence it), no mutable default arguments, no module/class-level mutable state, no iteration order from sets, parser helpers built per call; B: every order of two documents on one reader, edits of one result, interleaving across formats, four hash seeds", "3 C10"),
  "C09": ("frame (reads/modifies / object-invariant) obligations discharged by a syntactic effect checker over the real ASTs + bounded run-time snapshot and determinism contracts incl. hash seeds",
